@@ -871,3 +871,5 @@ def run(ctx):
         ctx.anchor("SIBLING-FILTER", "FlexChild.flex-reference-filter", "no constructor of FlexChild filters `flex > 0` any more: flex_layout divides the remaining space by "
                    "flex/flex_total and subtracts the child's size, which needs every flex > 0; nothing establishes it")
     obligations(ctx)
+    from . import c19_sep
+    c19_sep.run_sep(ctx)
